@@ -30,6 +30,11 @@ class Pat:
             ih = inline_call(ctx, e2)
             if ih is not None:
                 alts.append(ih)
+        elif e2.get('k') == 'field':
+            # `v.f` where v is (bound to / returned as) a struct literal: the initialiser of f
+            pf = project_field(ctx, e2)
+            if pf is not None:
+                alts.append(pf)
         for a_e, a_ctx in alts:
             a_ctx.via_depth = depth + 1
             try:
@@ -55,6 +60,45 @@ def unique_inits(ctx, name):
             seen.add(c)
             res.append(i)
     return res
+
+
+def project_field(ctx, e, depth=0):
+    base = strip(e['e'])
+    c = ctx
+    for _ in range(4):
+        if not isinstance(base, dict):
+            return None
+        if base.get('k') == 'struct':
+            for f in base.get('fields', []):
+                if f['n'] == e['n']:
+                    return (f['e'], c)
+            return None
+        if base.get('k') == 'tup' and str(e['n']).isdigit() and int(e['n']) < len(base['es']):
+            return (base['es'][int(e['n'])], c)
+        if base.get('k') == 'block' and 'expr' in base:
+            # `{ lets..; tail }` produced by inlining: the tail, with the block's lets visible
+            c2 = Ctx(c.facts, None, None)
+            inits = dict(c.inits)
+            for k, v in H.binding_inits({'body': base}).items():
+                inits[k] = v
+            c2.inits, c2.names, c2.env = inits, c.names, c.env
+            c = c2
+            base = strip(base['expr'])
+            continue
+        if base.get('k') == 'local':
+            inits = unique_inits(c, base['name'])
+            if len(inits) != 1:
+                return None
+            base = strip(inits[0])
+            continue
+        if base.get('k') in ('call', 'mcall'):
+            ih = inline_call(c, base)
+            if ih is None:
+                return None
+            base, c = strip(ih[0]), ih[1]
+            continue
+        return None
+    return None
 
 
 def inline_call(ctx, e):
@@ -187,6 +231,9 @@ class Ctx:
         return None
 
 
+ANY_FIELD = object()      # F(base, ANY_FIELD): any field name
+
+
 class ANY(Pat):
     def m0(self, ctx, e):
         return True
@@ -247,7 +294,8 @@ class F(Pat):
 
     def m0(self, ctx, e):
         e = strip(e)
-        return isinstance(e, dict) and e.get('k') == 'field' and e.get('n') == self.name and self.base.m(ctx, e['e'])
+        return isinstance(e, dict) and e.get('k') == 'field' and (self.name is ANY_FIELD or e.get('n') == self.name) \
+            and self.base.m(ctx, e['e'])
 
     def __repr__(self):
         return 'F(%r,%s)' % (self.base, self.name)
